@@ -104,3 +104,70 @@ def groupop_composition_order(model, rep, rule='composition-order'):
     rep.ob(rule, mod, fn, 'GroupOp.__mul__: translation = outer.rot . inner.trans + outer.trans', okt,
            '' if okt else 'translation of the product is not that of applying the inner operation first', engine='pattern',
            qual='GroupOp.__mul__')
+
+
+# ---------------------------------------------------------------------------------------------------------------------
+# form-independent helpers: the same fact whether the code says ``if c: BODY`` or ``if not c: continue`` ; BODY, and
+# whether a value is used in place or through a local bound once
+_TERMINATORS = (ast.Continue, ast.Break, ast.Return, ast.Raise)
+
+
+def _neg(test):
+    from ..engines.norm import _not
+    import copy
+    return _not(copy.deepcopy(test))
+
+
+def conditions_at(fn, node):
+    """texts of the conditions known to hold when ``node`` (inside ``fn``) executes: tests of the enclosing ``if`` (negated
+    on the else side) and negated tests of earlier sibling guards ``if c: continue / break / return / raise``."""
+    out = set()
+    n = node
+    while n is not None and n is not fn:
+        par = getattr(n, '_parent', None)
+        if par is None:
+            break
+        for field in ('body', 'orelse', 'finalbody'):
+            blk = getattr(par, field, None)
+            if isinstance(blk, list) and any(x is n for x in blk):
+                if isinstance(par, ast.If):
+                    out.add(unparse(par.test) if field == 'body' else unparse(_neg(par.test)))
+                for sib in blk:
+                    if sib is n:
+                        break
+                    if isinstance(sib, ast.If) and not sib.orelse and sib.body and isinstance(sib.body[-1], _TERMINATORS):
+                        out.add(unparse(_neg(sib.test)))
+        n = par
+    return out
+
+
+def resolve_local(fn, e, depth=3):
+    """``e`` with every local name that is bound by exactly one plain assignment in ``fn`` (also as one element of a
+    tuple-to-tuple assignment) replaced by its definition."""
+    import copy
+    defs = {}
+    for n in ast.walk(fn):
+        if isinstance(n, ast.Assign) and len(n.targets) == 1:
+            t, v = n.targets[0], n.value
+            pairs = list(zip(t.elts, v.elts)) if isinstance(t, ast.Tuple) and isinstance(v, ast.Tuple) and len(t.elts) == len(v.elts) else [(t, v)]
+            for tt, vv in pairs:
+                if isinstance(tt, ast.Name):
+                    defs.setdefault(tt.id, []).append(vv)
+        elif isinstance(n, (ast.For, ast.comprehension, ast.AugAssign, ast.NamedExpr, ast.With, ast.ExceptHandler)):
+            tg = getattr(n, 'target', None)
+            if tg is not None:
+                for x in ast.walk(tg):
+                    if isinstance(x, ast.Name):
+                        defs.setdefault(x.id, []).extend([None, None])
+    single = {k: v[0] for k, v in defs.items() if len(v) == 1 and v[0] is not None}
+
+    class R(ast.NodeTransformer):
+        def __init__(self, d):
+            self.d = d
+
+        def visit_Name(self, n):
+            if isinstance(n.ctx, ast.Load) and n.id in single and self.d > 0:
+                return R(self.d - 1).visit(copy.deepcopy(single[n.id]))
+            return n
+
+    return R(depth).visit(copy.deepcopy(e))
